@@ -226,7 +226,7 @@ fn mk_inp_of(name: &str, bytes: Vec<u8>, pinned_hint: &'static str, origin: Opti
         n: bytes.len(),
         bytes,
         marks,
-        bodies: vec![],
+        bodies: vec![], must: vec![], batch_sizes: None, lean: false,
         cfg: Cfg::Ipc(frame),
         uses_bs: false,
         allow_empty: true,
